@@ -237,6 +237,27 @@ def _keys_and_identity(ctx, loader, master, func, graph, facts):
         ctx.ob('C11.4', func, node, N.txt(call.args[0]) == 'identity',
                'the identity forced is the recorded one',
                construct='forced value')
+    # the forcing routine takes the recorded identity unconditionally
+    app_cls = ctx.index.get_class(K.SCHED, 'Application')
+    force = ctx.index.find_method(app_cls, 'force_set_identity')
+    ctx.require(force is not None, 'Application.force_set_identity')
+    fgraph = ctx.cfg(force)
+    ffacts = N.must_facts(fgraph, nz, edge_ok=C.no_exc)
+    param = force.params()[1]
+    stores = [n for n in fgraph.nodes if any(
+        N.txt(t) == 'self.identity' for t, _v, _k in K.assigns_attr(n))]
+    ctx.require(stores, 'store of self.identity in force_set_identity')
+    for node in stores:
+        extra = [N.show(f) for f in ffacts[node]
+                 if not (f.key[0] == 'is' and not f.key[3] and
+                         f.key[1] == param and f.key[2] == 'None') and
+                 not (f.key[0] == 'truth' and f.key[2] and
+                      f.key[1] == 'self.identity_group_ref')]
+        val = [N.txt(v) for _t, v, _k in K.assigns_attr(node)][0]
+        ctx.ob('C11.4', force, node, not extra and val == param,
+               'the recorded identity is taken whenever one was recorded'
+               if not extra else
+               'the recorded identity is taken only under %s' % extra)
     # a failed restore deletes the record
     tests = [n for n in graph.nodes if n.kind == 'test' and
              N.txt(n.ast) == 'restored']
@@ -397,6 +418,19 @@ MUTANTS = [
             if server.put(app):
                 break
 """)], 'C11.5'),
+]
+
+MUTANTS += [
+    ('forced-identity-only-if-free', [(
+        'lib/python/treadmill/scheduler/__init__.py',
+        """        if identity is not None:
+            assert self.identity_group_ref
+            self.identity = identity
+""", """        if identity is not None and \\
+                identity in self.identity_group_ref.available:
+            assert self.identity_group_ref
+            self.identity = identity
+""")], 'C11.4'),
 ]
 
 REFACTORS = [
